@@ -4,10 +4,18 @@
 #include "momo/details/HashBucketOpen2N2.h"
 #include "momo/details/HashBucketOpenN1.h"
 #include "momo/details/HashBucketOpen8.h"
+#include "momo/details/HashBucketLimP1.h"
+#include "momo/details/HashBucketLim4.h"
+#include "momo/details/HashBucketUnlimP.h"
+#include "momo/details/HashBucketLimP.h"
 namespace momo { namespace internal {
 template class BucketOpen2N2<HashSetItemTraits<uint64_t, MemManagerDefault>, 3, true>;
 template class BucketOpen2N2<HashSetItemTraits<uint64_t, MemManagerDefault>, 3, false>;
 template class BucketOpenN1<HashSetItemTraits<uint64_t, MemManagerDefault>, 3, true>;
 template class BucketOpen8<HashSetItemTraits<uint64_t, MemManagerDefault>>;
 template class BucketLimP4<HashSetBucketItemTraits<HashSetItemTraits<uint64_t, MemManagerDefault>>, 4, MemPoolParams<>, true>;
+template class BucketLimP1<HashSetBucketItemTraits<HashSetItemTraits<uint64_t, MemManagerDefault>>, 4, MemPoolParams<>>;
+template class BucketLim4<HashSetBucketItemTraits<HashSetItemTraits<uint64_t, MemManagerDefault>>, 2, 32>;
+template class BucketUnlimP<HashSetBucketItemTraits<HashSetItemTraits<uint64_t, MemManagerDefault>>, 7, MemPoolParams<>, ArraySettings<>>;
+template class BucketLimP<HashSetBucketItemTraits<HashSetItemTraits<uint64_t, MemManagerDefault>>, 8, MemPoolParams<>, true>;
 }}
